@@ -76,6 +76,9 @@ def generate(tier, seed, work, stats):
             cases.append(dict(kind="pda", hist=c["hist"], spool=c["spool"], kpool=c["kpool"], operand=rnd.choice(nfa_ops),
                               operand2=rnd.choice(nfa_ops), L=3, family="chains"))
     cases += directed_chains(500 if tier == "quick" else 10000, seed + 3)
+    # unsupported operand types on grammars that do / do not generate the empty word, and on PDAs
+    for prods in ([["S", []], ["S", ["a", "S", "b"]]], [["S", ["A", "A"]], ["A", []], ["A", ["a"]]], [["S", ["a"]]], []):
+        cases.append(dict(kind="cfg", prods=prods, vpool="upper", tpool="ab", operand=ops[0], L=3, family="badtype-directed", badtype=True))
     for i in range(40):
         c = dict(cases[i * 7 % len(cases)])
         c["badtype"] = True
